@@ -23,7 +23,7 @@ RULE = ("every family at realistic sizes (php 30x25, gphp on 40x30 left-regular 
 ASSUMPTIONS = ["documented variable counts are the closed forms listed in C10.py (taken from docstrings / help texts)",
                "clauses inserted with check=False by user code are outside the statement; the library's own check=False insertions are watched"]
 REQUIRED = ["hook_clause_events", "hook_group_events", "final_scans", "documented_counts_checked", "chains_applied",
-            "cli_entries", "opb_entries", "interleavings", "lib_entries", "builder_insertions", "cli_documented_counts_checked"]
+            "cli_entries", "opb_entries", "interleavings", "lib_entries", "builder_insertions", "cli_documented_counts_checked", "chains_after_interleaving"]
 CASE_TIMEOUT = {"quick": 300, "thorough": 1800}
 
 
@@ -66,6 +66,8 @@ def lib_entries(r):
         return Graph.from_networkx(networkx.random_regular_graph(d, n, seed=r.randint(0, 10 ** 6)))
     out = []
     ent = lambda label, fn, cnt: out.append((label, fn, cnt))
+    s1, s2 = r.randint(0, 10 ** 6), r.randint(0, 10 ** 6)
+
     def handbuilt(K):
         F = K(description="hand-built formula with unused trailing variables")
         F.add_clause([1, -2, 3])
@@ -128,7 +130,18 @@ def lib_entries(r):
     ent("VanDerWaerden(40,3,4,5)", lambda K: g.VanDerWaerden(40, 3, 4, 5, formula_class=K), 120)
     ent("VanDerWaerden(60,4,4)", lambda K: g.VanDerWaerden(60, 4, 4, formula_class=K), 60)
     ent("PythagoreanTriples(120)", lambda K: g.PythagoreanTriples(120, formula_class=K), 120)
-    s1, s2 = r.randint(0, 10 ** 6), r.randint(0, 10 ** 6)
+    def dense_kcnf(K, k=2, n=9, m=100):
+        from ..hostile import adversary
+        with adversary("repeat", 10 * m * (k + 2) + 50, s1):
+            return g.RandomKCNF(k, n, m, formula_class=K)
+
+    def dense_kxor(K, k=2, n=9, m=50):
+        from ..hostile import adversary
+        with adversary("repeat", 10 * m * (k + 2) + 50, s2):
+            return g.RandomKXOR(k, n, m, formula_class=K)
+    ent("RandomKCNF(2,9,100) via the dense sampler (adversarial RNG)", dense_kcnf, 9)
+    ent("RandomKXOR(2,9,50) via the dense sampler (adversarial RNG)", dense_kxor, 9)
+    ent("RandomKCNF(2,12,264) at the exact maximum", lambda K: g.RandomKCNF(2, 12, 264, seed=s1, formula_class=K), 12)
     ent("RandomKCNF(3,100,420)", lambda K: g.RandomKCNF(3, 100, 420, seed=s1, formula_class=K), 100)
     ent("RandomKXOR(3,50,60)", lambda K: g.RandomKXOR(3, 50, 60, seed=s2, formula_class=K), 50)
     return out
@@ -440,6 +453,23 @@ def case_interleave(ctx, rseed, count):
         account(ctx, before)
         ctx.count("interleavings")
         report(ctx, "history %r on %s" % (hist, K.__name__), mon, F)
+        if K is CNF and F.number_of_variables() <= 40 and len(F) <= 30 and max([len(c) for c in F] or [0]) <= 3:
+            # a formula with such a history is a legitimate input of every transformation
+            chain = [r.choice([["xor", "2"], ["or", "2"], ["lift", "2"], ["ite"], ["flip"], ["shuffle"], ["one", "2"]])]
+            n_exp = chain_count(F.number_of_variables(), chain)
+            with alloc.watch() as mon2:
+                st, T = ctx.call(apply_chain_lib, F, chain)
+            ctx.count("chains_applied")
+            ctx.count("chains_after_interleaving")
+            w2 = "history %r then %r" % (hist, chain)
+            if st == "exc":
+                report(ctx, w2, mon2)
+                ctx.violation("chain:raises:%s" % type(T).__name__, "%s raised %r" % (w2, T))
+            else:
+                report(ctx, w2, mon2, T)
+                if T.number_of_variables() != n_exp:
+                    ctx.violation("count:chain-after-history(%s)" % chain[0][0], "%s declares %d variables, documented %d (input has %d)"
+                                  % (w2, T.number_of_variables(), n_exp, F.number_of_variables()))
         ctx.judged(("interleave", rseed, tuple(hist), K.__name__, F.number_of_variables()), nontrivial=len(F) > 0,
                    sample={"history": hist, "class": K.__name__, "variables": F.number_of_variables()})
 
@@ -471,7 +501,7 @@ def case_repo_tests(ctx):
 
 def workload(tier, seed):
     q = tier == "quick"
-    n = 54
+    n = 57
     for rs in range(1 if q else 10):
         for lo in range(0, n, 3):
             yield "library", {"rseed": seed * 100 + rs, "lo": lo, "hi": lo + 3}
